@@ -1,6 +1,7 @@
 package rules
 
 import (
+	"os"
 	"fmt"
 	"go/token"
 	"math/big"
@@ -260,9 +261,11 @@ func observe(p *an.Path, v *an.Expr, raw string, maxExpr *an.Expr, base an.Env, 
 			if !okx || !oky {
 				continue
 			}
-			if s, ok := singleSym(xn); ok && isFreeSym(s) && nfSame(yn, nf) {
+			// (the symbol must be this key's own parsed value, not that of a sibling key tested on the path)
+			own := func(s string) bool { return raw == "" || strings.Contains(s, raw) }
+			if s, ok := singleSym(xn); ok && isFreeSym(s) && own(s) && nfSame(yn, nf) {
 				nf, sym, single = xn, s, true
-			} else if s, ok := singleSym(yn); ok && isFreeSym(s) && nfSame(xn, nf) {
+			} else if s, ok := singleSym(yn); ok && isFreeSym(s) && own(s) && nfSame(xn, nf) {
 				nf, sym, single = yn, s, true
 			}
 		}
@@ -442,10 +445,15 @@ func checkAgainst(c *Ctx, rule, sink, fn string, at string, obs []*sinkObs, piec
 	covLo := map[int]*big.Rat{}
 	covHi := map[int]*big.Rat{}
 	rangeHit := map[int]map[int]bool{}
+	parts := map[int]map[int][][2]*an.NF{} // piece → range → sub-intervals accepted on different paths
+	var partEnv an.Env
 	reported := map[string]bool{}
 	for _, o := range obs {
 		if o == nil {
 			continue
+		}
+		if dbg := os.Getenv("DEBUG_SINK"); dbg != "" && strings.Contains(sink, dbg) {
+			fmt.Fprintf(os.Stderr, "OBS %s: %s lo=%v hi=%v point=%v free=%v\n", sink, o, o.lo, o.hi, o.point, o.free)
 		}
 		if o.undecid != "" {
 			c.R.Undecided(rule, sink+":value@"+o.class, fn, at, o.undecid)
@@ -498,13 +506,43 @@ func checkAgainst(c *Ctx, rule, sink, fn string, at string, obs []*sinkObs, piec
 						hit = ri
 					}
 				}
-				if hit < 0 {
-					ok, why = false, "accepted user range differs from the documented one"
-				} else {
-					if rangeHit[pi] == nil {
-						rangeHit[pi] = map[int]bool{}
+				{
+					// part of a documented range? (a range split over several paths, e.g. "== Infinity" on one
+					// path and "!= Infinity" on another): sound as long as the part lies inside the range;
+					// completeness is decided on the union of the parts below
+					exact := hit
+					for ri, rg := range pc.ranges {
+						if ri == exact {
+							continue
+						}
+						lo, hi := rg[0](o.maxNF), rg[1](o.maxNF)
+						plo, phi := o.lo, o.hi
+						if o.point != nil {
+							plo, phi = o.point, o.point
+						}
+						if plo == nil || phi == nil || lo == nil || hi == nil {
+							continue
+						}
+						if o.env.Compare(plo, token.GEQ, lo) == an.TriTrue && o.env.Compare(phi, token.LEQ, hi) == an.TriTrue {
+							if hit < 0 {
+								hit = ri
+							}
+							if parts[pi] == nil {
+								parts[pi] = map[int][][2]*an.NF{}
+							}
+							parts[pi][ri] = append(parts[pi][ri], [2]*an.NF{plo, phi})
+							partEnv = o.env
+						}
 					}
-					rangeHit[pi][hit] = true
+					if hit < 0 {
+						ok, why = false, "accepted user range differs from the documented one"
+					}
+					if exact >= 0 {
+						if rangeHit[pi] == nil {
+							rangeHit[pi] = map[int]bool{}
+						}
+						rangeHit[pi][exact] = true
+					}
 				}
 			}
 			if ok {
@@ -542,7 +580,39 @@ func checkAgainst(c *Ctx, rule, sink, fn string, at string, obs []*sinkObs, piec
 			ok := matched[pi][cl]
 			c.R.Check(ok, rule, fmt.Sprintf("%s:%s@%s:accepted", sink, pc.doc, cl), fn, at, fmt.Sprintf("witnessed by a success path: %v", ok), "documented: "+pc.doc, "a documented value/keyword is rejected (or its default differs)")
 		}
-		for ri := range pc.ranges {
+		for ri, rg := range pc.ranges {
+			if !rangeHit[pi][ri] && len(parts[pi][ri]) > 0 {
+				// do the parts, taken together, cover the documented range? walk from the lower bound
+				var maxNF *an.NF
+				for _, o := range obs {
+					if o != nil && o.maxNF != nil {
+						maxNF = o.maxNF
+					}
+				}
+				lo, hi := rg[0](maxNF), rg[1](maxNF)
+				cur := lo
+				for step := 0; step <= len(parts[pi][ri]) && cur != nil; step++ {
+					if partEnv.Compare(cur, token.GTR, hi) == an.TriTrue {
+						break
+					}
+					advanced := false
+					for _, pt := range parts[pi][ri] {
+						if partEnv.Compare(pt[0], token.LEQ, cur) == an.TriTrue && partEnv.Compare(pt[1], token.GEQ, cur) == an.TriTrue {
+							cur = addConst(pt[1], 1)
+							advanced = true
+						}
+					}
+					if !advanced {
+						break
+					}
+				}
+				if cur != nil && partEnv.Compare(cur, token.GTR, hi) == an.TriTrue {
+					if rangeHit[pi] == nil {
+						rangeHit[pi] = map[int]bool{}
+					}
+					rangeHit[pi][ri] = true
+				}
+			}
 			if !rangeHit[pi][ri] {
 				c.R.Fail(rule, fmt.Sprintf("%s:%s:range#%d", sink, pc.doc, ri), fn, at, "no success path accepts this documented range", "documented: "+pc.doc, "documented values are rejected")
 			}
